@@ -719,6 +719,7 @@ func proofMonitor(c *trieCase, x *itrie, root common.Hash, model map[string][]by
 		targets = append(targets, target{k, false})
 	}
 	var prevNodes [][]byte // proof of the previous target, for the cross-key test
+	emptyReported := false
 	for _, tg := range targets {
 		pdb := ethdb.NewMemDatabase()
 		if err := x.prove(tg.k, pdb); err != nil {
@@ -745,8 +746,12 @@ func proofMonitor(c *trieCase, x *itrie, root common.Hash, model map[string][]by
 		if err != nil {
 			if len(keys) == 0 && root == emptyRoot && len(nodes) == 0 {
 				// one class for plain and secure tries and all key modes: Prove and VerifyProof are shared code
-				run.Violation("d/absent-key-proof-of-empty-trie-does-not-verify", fmt.Sprintf("empty trie (root %x): Prove(%x) gives no nodes and VerifyProof fails: %v", root, tg.k, err), c.witness(nil))
 				cnt.add("proofs_empty_trie_unverifiable", 1)
+				if emptyReported {
+					continue
+				}
+				emptyReported = true
+				run.Violation("d/absent-key-proof-of-empty-trie-does-not-verify", fmt.Sprintf("empty trie (root %x): Prove(%x) gives no nodes and VerifyProof fails: %v", root, tg.k, err), c.witness(nil))
 				continue
 			}
 			viol(mon("d")+"/"+kind+"-key-proof-does-not-verify", fmt.Sprintf("Prove(%x) gave %d nodes; VerifyProof against root %x: %v", tg.k, len(nodes), root, err), map[string]interface{}{"proof_nodes": hexList(nodes), "content": contentStrings(model, 30)})
@@ -757,6 +762,9 @@ func proofMonitor(c *trieCase, x *itrie, root common.Hash, model map[string][]by
 			return
 		}
 		cnt.add("proofs_verified_"+kind, 1)
+		if len(nodes) == 0 {
+			continue // empty trie: nothing to hand to the reference verifier or to mutate
+		}
 		// the reference verifier accepts the in-tree proof too
 		rdb := refethdb.NewMemDatabase()
 		for _, nd := range nodes {
